@@ -355,6 +355,30 @@ func Simulate(sc *Scenario) *Sim {
 			errored := false
 			cut := false
 			popOld := map[int]int{} // bars popped in this cycle -> priority they had
+			nrowsOf := func(x *mcBar) int {
+				n := 1 + x.spec.ExtRows
+				if x.spec.ExtNoNL && x.spec.ExtRows > 0 {
+					n-- // an unterminated last extender line is dropped
+				}
+				return n
+			}
+			// rows of the bars that are drawn for the last time in this frame
+			// (moved to the top one frame earlier) are to stay on screen: they are
+			// never cut; the height limit takes the top-most of the other rows
+			persisting := map[int]bool{}
+			persistRows := 0
+			for _, i := range shown {
+				x := s.Bars[i]
+				if x.m.Terminal() && x.sd == 2 && sc.Cfg.Pop && !x.spec.NoPop {
+					persisting[i] = true
+					persistRows += nrowsOf(x)
+				}
+			}
+			budget := height - persistRows
+			if budget < 0 {
+				budget = 0
+			}
+			runningRows := 0
 			for k := len(shown) - 1; k >= 0; k-- {
 				i := shown[k]
 				x := s.Bars[i]
@@ -378,15 +402,18 @@ func Simulate(sc *Scenario) *Sim {
 				}
 				f.Prio[i] = x.prio
 				f.State[i] = *x.m
-				nrows := 1 + x.spec.ExtRows
-				if x.spec.ExtNoNL && x.spec.ExtRows > 0 {
-					nrows-- // an unterminated last extender line is dropped
-				}
+				nrows := nrowsOf(x)
 				used := 0
-				for r := 0; r < nrows; r++ {
-					if rowsTotal < height {
-						rowsTotal++
-						used++
+				if persisting[i] {
+					used = nrows
+					rowsTotal += nrows
+				} else {
+					for r := 0; r < nrows; r++ {
+						if runningRows < budget {
+							runningRows++
+							rowsTotal++
+							used++
+						}
 					}
 				}
 				f.Rows[i] = used
